@@ -143,4 +143,4 @@ for _p in ["C%02d" % i for i in range(1, 21)]:
     if _p not in META and _p not in NOT_APPLICABLE:
         NOT_APPLICABLE[_p] = NOT_BUILT
 
-FIX_COMMITS = ["0098309", "82df5c9", "ded46ec", "756923f", "8a458bc", "a72c860", "b452482", "d151f47", "9ae2f3a", "8b96fa1", "fbdaf29", "dfe0838", "b53b7ad", "2609bab", "9c2d0e3", "8760cb9", "e53f4fa"]
+FIX_COMMITS = ["0098309", "82df5c9", "ded46ec", "756923f", "8a458bc", "a72c860", "b452482", "d151f47", "9ae2f3a", "8b96fa1", "fbdaf29", "dfe0838", "b53b7ad", "2609bab", "9c2d0e3", "8760cb9", "e53f4fa", "1cd7e3e"]
